@@ -45,20 +45,25 @@ Qed.
 
 Definition count_of (c : option Z) : Z := match c with Some c => c | None => 1 end.
 
+Lemma wrap64_small z : - two63 <= z < two63 -> wrap64 z = z.
+Proof. intros H. unfold wrap64. rewrite Z.mod_small; unfold two63 in *; lia. Qed.
+
+(* what the code returns, always: the rows between h and the WRAPPED end *)
 Theorem by_height_char s h c r :
-  In r (by_height_range s h c) <-> In r s /\ h <= height r <= h + count_of c - 1.
+  In r (by_height_range s h c) <-> In r s /\ h <= height r <= window_end h (count_of c).
 Proof.
-  unfold by_height_range, count_of. rewrite idx_sort_in, filter_In, <- in_rev. unfold in_window.
+  unfold by_height_range, count_of. rewrite idx_sort_in, filter_In, <- in_rev. unfold in_range.
   rewrite andb_true_iff, !Z.leb_le. reflexivity.
 Qed.
 
-Theorem by_height_spec s h c :
+(* the declarative window, whenever height + count - 1 fits a 64-bit int *)
+Theorem by_height_spec s h c : - two63 <= h + count_of c - 1 < two63 ->
   (forall r, In r (by_height_range s h c) -> In r s /\ h <= height r <= h + count_of c - 1) /\
   (forall r, In r s -> st r = Longest -> h <= height r <= h + count_of c - 1 -> In r (by_height_range s h c)).
 Proof.
-  split.
-  - intros r Hr. apply by_height_char. exact Hr.
-  - intros r Hr _ Hw. apply by_height_char. split; assumption.
+  intros Hfit. pose proof (wrap64_small _ Hfit) as Hw. split.
+  - intros r Hr. apply by_height_char in Hr. unfold window_end in Hr. rewrite Hw in Hr. exact Hr.
+  - intros r Hr _ Hwin. apply by_height_char. unfold window_end. rewrite Hw. split; assumption.
 Qed.
 
 (* ================================================================== tips *)
